@@ -102,9 +102,8 @@ Proof.
     unfold push_import in H. cbn in H. inversion H; subst. cbn. rewrite ?lenN_updN, ?lenN_app1. repeat split; lia.
   - destruct (nthN (m_imports m) k) as [im|]; [|discriminate].
     destruct (negb (N.eqb (i_sp im) 0)); [discriminate|].
-    destruct (nthN (s_items (m_f m)) k) as [it|]; [|discriminate].
-    destruct (is_local it); [inversion H; subst; repeat split; lia|].
-    destruct (delete_in m SF k) as [m1|] eqn:E; [|discriminate].
+    destruct (find_imp (s_items (m_f m)) k 0) as [p|]; [|inversion H; subst; repeat split; lia].
+    destruct (delete_in m SF p) as [m1|] eqn:E; [|discriminate].
     destruct (delete_in_len _ _ _ _ E) as (A & B & C & D).
     inversion H; subst. cbn. rewrite ?lenN_updN. repeat split; lia.
   - inversion H; subst. cbn. rewrite ?lenN_app1. repeat split; lia.
